@@ -308,7 +308,8 @@ RatchetViolations(e) ==
   THEN {<<"C19", "key ids and the tables indexed by key-id pairs did not evolve by a step of the bounded ratchet (Ratchet.tla)">>} ELSE {}
 
 MultiPaired(q) == /\ st["A"].ms = "enc" /\ st[q].ms = "enc" /\ st["A"].sess = st[q].sess /\ st["A"].sess # <<0, 0>>
-                  /\ st["A"].ttag = TagOf(q) /\ st[q].ttag = 1 /\ st["A"].rev # st[q].rev /\ st["A"].peer = "B" /\ st[q].peer = "A"
+                  /\ st["A"].ver = st[q].ver /\ (st["A"].ver = 3 => (st["A"].ttag = TagOf(q) /\ st[q].ttag = 1))
+                  /\ st["A"].rev # st[q].rev /\ st["A"].peer = "B" /\ st[q].peer = "A"
 MultiViolations(e, o) ==
   (IF e.ev = "Done" /\ o.fam = "multi" /\ e.qa = 0 /\ e.qb = 0 /\ o.started /\ ~(MultiPaired("B") \/ MultiPaired("C"))
    THEN {<<"C15", "with the peer's account logged in twice the key exchange did not complete with either client">>} ELSE {})
